@@ -138,6 +138,10 @@ def L(x):
 
 def lab_of(case):
     """nodes may be labelled with strings whose order is that of the integers they stand for"""
+    if case.get('strlabels') == 'digits':
+        # short digit strings, some of which spell out two other labels ('12' ~ '1','2'); listed in string order, which is the order of the numbers they stand for
+        D_ = ['1', '11', '12', '2', '21', '22', '3', '31', '32', '4', '41', '42']
+        return lambda n: ''.join([D_[n]]) if n < len(D_) else f"9{n:03d}"
     if case.get('strlabels') == 'big': return lambda n: int(str(1000 + n))      # equal integers that are not the same object (beyond the small-int cache)
     if case.get('strlabels') == 'tuple': return lambda n: ('t', n)         # tuple labels (lattice coordinates and the like), ordered as the integers
     if case.get('strlabels'): return lambda n: f"n{n:03d}"
